@@ -195,6 +195,25 @@ def correspondence(ctx, violations, known_hits):
             else:
                 hist["run-equal"] += 1
                 sigs.add(("run", kind, code, min(len(out or ""), 3)))
+    # the object file delivered through a NAMED PIPE (reported size 0, readable once): it runs as the regular file does
+    fsub = clicommon.fresh_dir(ctx, "fifo")
+    for k, (text, inp) in enumerate((("lea r0 m\nputs\nhalt\nm .stringz \"pipe\"\n", b""), ("getc\nout\nhalt\n", b"Q"), (".orig x4000\nand r0 r0 #0\nadd r0 r0 #7\nputn\nhalt\n", b""))):
+        open(os.path.join(fsub, "f%d.asm" % k), "w").write(text)
+        rc_c, _, _ = clicommon.run_cli(exe, ["compile", "f%d.asm" % k, "f%d.lc3" % k], fsub)
+        data_k = open(os.path.join(fsub, "f%d.lc3" % k), "rb").read() if rc_c == 0 else None
+        if data_k is None:
+            continue
+        reg = clicommon.run_cli(exe, ["run", "f%d.lc3" % k, "--minimal"], fsub, stdin=inp)
+        for bad in (data_k, data_k + b"\x00", b""):          # the image, an odd-length variant, nothing at all
+            open(os.path.join(fsub, "r.lc3"), "wb").write(bad)
+            want = clicommon.run_cli(exe, ["run", "r.lc3", "--minimal"], fsub, stdin=inp)
+            got = clicommon.run_cli_fifo(exe, ["run", "p.lc3", "--minimal"], fsub, "p.lc3", bad, stdin=inp)
+            ev += 1
+            a = (want[0], clicommon.program_output(want[1])); b = (got[0], clicommon.program_output(got[1]))
+            if a != b:
+                nv += 1
+                violations.append({"kind": "object-file-through-a-named-pipe", "source": text, "file_bytes": bad.hex()[:200], "stdin": inp.hex(),
+                                   "regular_file": [a[0], a[1]], "named_pipe": [b[0], b[1]], "named_pipe_stderr": got[2].decode("utf-8", "replace")[-300:]})
     # loader on arbitrary byte strings
     files = loader_files(rnd, ctx.tier)
     model_l = ctx.run_model([lc3_case(0, 5000, list(b), []) for b in files], tag="lc3")
